@@ -93,7 +93,7 @@ func (obj JsonWebEncryption) computeAuthData() []byte {
 	}
 
 	output := []byte(protected)
-	if obj.aad != nil {
+	if len(obj.aad) > 0 {
 		output = append(output, '.')
 		output = append(output, []byte(base64URLEncode(obj.aad))...)
 	}
